@@ -407,6 +407,13 @@ def harness_env():
     return vlib.ENV
 
 
+class HarnessPanic(Exception):
+    """the implementation panicked on one input of an auxiliary query (the case is attached)"""
+    def __init__(self, case, message):
+        super().__init__(f"the implementation panicked on {json.dumps(case)[:300]}: {str(message)[:300]}")
+        self.case, self.message = case, str(message)[:2000]
+
+
 class HarnessHang(Exception):
     """the implementation did not come back on one input (the case is attached)"""
     def __init__(self, case, seconds):
@@ -482,6 +489,16 @@ def impl_oracle(binary, globs, regexes, inputs):
         cases.append(dict(op="oracle", globs=items if kind == "g" else [],
                           regexes=items if kind == "r" else [], inputs=inputs))
     res = run_filterset(binary, cases) if cases else []
+    for case, out in zip(cases, res):
+        if "panic" in out:
+            # find the single pattern that does it
+            for key in ("globs", "regexes"):
+                for item in case[key]:
+                    one = run_filterset(binary, [dict(op="oracle", globs=[item] if key == "globs" else [],
+                                                      regexes=[item] if key == "regexes" else [], inputs=[])])[0]
+                    if "panic" in one:
+                        raise HarnessPanic({"matcher": key[:-1], "pattern": item}, one["panic"])
+            raise HarnessPanic(case, out["panic"])
     for out in res:
         for g in out["globs"]:
             if g["valid"] is None and g["g"] != "":
